@@ -73,13 +73,16 @@ class Scope(dict):
 
 class _Fallback:
     """module scope behind the analysis' own builtins: an explicit builtin of the rule wins over a module-level definition"""
-    def __init__(self, module, builtins):
-        self.module, self.builtins = module, builtins
+    def __init__(self, module, builtins, interp=None):
+        self.module, self.builtins, self.interp = module, builtins, interp
 
     def __contains__(self, k):
-        return k not in self.builtins and k in self.module
+        return k not in self.builtins and (k in self.module or k in self.module.get("__lazy__", {}))
 
     def __getitem__(self, k):
+        if k not in self.module and k in self.module.get("__lazy__", {}):
+            node = self.module["__lazy__"].pop(k)
+            self.module[k] = self.interp.ev(node, Scope(self, ()))
         return self.module[k]
 
     def __setitem__(self, k, v):
@@ -117,6 +120,12 @@ class SymInterp:
                     sc[st.targets[0].id] = {} if isinstance(v, ast.Dict) else ([] if isinstance(v, ast.List) else set())
                 elif isinstance(v, ast.Constant):
                     sc[st.targets[0].id] = v.value
+                else:
+                    # other module-level values: literals are evaluated now, anything else on first use (with the builtins of the run, e.g. the numpy stand-in)
+                    try:
+                        sc[st.targets[0].id] = ast.literal_eval(v)
+                    except (ValueError, SyntaxError, TypeError):
+                        sc.setdefault("__lazy__", {})[st.targets[0].id] = v
             elif isinstance(st, ast.FunctionDef):
                 fi = self.src.funcs.get((rel, st.name))
                 if fi is not None:
@@ -133,7 +142,7 @@ class SymInterp:
             a = fi.node.args
             names = [x.arg for x in a.posonlyargs + a.args]
             globs = [n for x in ast.walk(fi.node) if isinstance(x, ast.Global) for n in x.names]
-            env = Scope(_Fallback(self.module_scope(fi.rel), self.builtins), globs)
+            env = Scope(_Fallback(self.module_scope(fi.rel), self.builtins, self), globs)
             defaults = dict(zip(names[len(names) - len(a.defaults):], a.defaults))
             for i, n in enumerate(names):
                 if i < len(args):
@@ -492,8 +501,8 @@ class SymInterp:
             target = self.resolver(recv, f.attr)
             if target is None and isinstance(recv, Sym) and callable(recv.__dict__.get(f.attr)):
                 target = recv.__dict__[f.attr]
-            if target is None and isinstance(recv, Sym) and f.attr in type(recv).__dict__ and callable(type(recv).__dict__[f.attr]):
-                target = getattr(recv, f.attr)
+            if target is None and isinstance(recv, Sym) and callable(getattr(type(recv), f.attr, None)) and f.attr not in ("symattr",):
+                target = getattr(recv, f.attr)          # a method of the stand-in's Python class (inherited ones included)
             if target is None and isinstance(recv, Sym) and callable(getattr(type(recv), "symattr", None)):
                 target = recv.symattr(f.attr)
             if target is not None:
